@@ -36,7 +36,9 @@ def canon_loc(loc):
             else:
                 m4 = re.search(r"/rustc/[0-9a-f]+/(.*)$", path)
                 if m4:
-                    path = m4.group(1)
+                    # a site inside the Rust standard library: its line number depends on the toolchain
+                    # version and says nothing about jaq, so the key carries the file only
+                    return m4.group(1)
     return f"{path}:{line}"
 
 
@@ -97,7 +99,7 @@ class Mon(Jaqmon):
     def __init__(self, profile="verif", mem_gb=4, stack_mb=512):
         super().__init__(profile, (), mem_gb=mem_gb, stack_mb=stack_mb, path=bin_path(profile))
         self.profile = profile
-        fd, self.errpath = tempfile.mkstemp(prefix="c05-stderr-")
+        fd, self.errpath = tempfile.mkstemp(prefix="c05-stderr-", dir=os.environ.get("C05_TMPDIR") or None)
         os.close(fd)
         self.errf = None
 
